@@ -1,2 +1,302 @@
--- stub: replaced when the area is built
-def main : IO Unit := pure ()
+import Nstd.Common.Basic
+import Nstd.Str.Model
+/-
+  Line protocol of the Str area (property C06).  One op per line.  After every op the driver
+  prints   `<result> ; <v0> | <v1> | <v2> | <v3> # <reg0> <reg1> <reg2> <reg3>`
+  with `<v> = length bytes term owned`: bytes in hex (`??` = unspecified, `-` = empty), `term` =
+  the stored char `data->str[length]` (for attached memory: the byte behind the attached range),
+  `owned` = 1 iff `data` is a heap block.  `<result>` = `-` or the value(s) the call returned.
+  Operands written `x<hex>` are temporaries `String(ptr, len)`.
+  A fault prints `FAULT` and resets the state.
+-/
+open Nstd.Common
+namespace Nstd.Str
+
+def NU : Nat := 4
+def T0 : Nat := NU
+
+def regionInit : Nat → List Nat
+  | 0 => [97, 98, 0]                    -- literal "ab"
+  | 1 => [32, 97, 47, 66, 32, 0]        -- literal " a/B "
+  | 2 => [97, 98, 47, 32, 0xEE]         -- attached "ab/ " + guard (not NUL)
+  | 3 => [98, 32, 97, 0]                -- attached "b a" + guard NUL
+  | _ => []
+
+def NR : Nat := 4
+def regLen (r : Nat) : Nat := (regionInit r).length - 1
+
+structure DState where
+  st : St
+  toks : List (List Byte)
+
+def init0 : DState := { st := init (NU + 3) regionInit, toks := [] }
+
+def byteStr : Byte → String
+  | some b => byteHex b
+  | none => "??"
+
+def bytesStr (bs : List Byte) : String :=
+  if bs.isEmpty then "-" else String.join (bs.map byteStr)
+
+def obsVar (s : St) (v : Nat) : String :=
+  match desc s v, content s v, termByte s v with
+  | some d, some c, some t => s!"{d.len} {bytesStr c} {byteStr t} {if owned s v then 1 else 0}"
+  | _, _, _ => "FAULT"
+
+def obs (s : St) : String :=
+  " | ".intercalate ((List.range NU).map (obsVar s)) ++ " # " ++
+    " ".intercalate ((List.range NR).map (fun r => toHex (s.regs r)))
+
+def var? (t : String) : Option Nat := do
+  let v ← t.toNat?
+  if v < NU then some v else none
+
+def byte? (t : String) : Option Nat := do
+  let v ← t.toNat?
+  if v < 256 then some v else none
+
+/-- an operand: a variable, or `x<hex>` = a temporary built in slot `slot` -/
+def operand (s : St) (t : String) (slot : Nat) : Option (Option (St × Nat)) :=
+  if t.startsWith "x" then
+    match fromHex (t.drop 1).toString with
+    | some bs => some ((ctorPtr s slot (bs.map some)).map (fun s => (s, slot)))
+    | none => none
+  else
+    match var? t with
+    | some v => some (some (s, v))
+    | none => none
+
+def optIdx : Option Nat → String
+  | some i => toString i
+  | none => "-1"
+
+def parseFmt : List String → Option (List Fmt)
+  | [] => some []
+  | t :: r => do
+    let rest ← parseFmt r
+    let body := (t.drop 1).toString
+    let item ←
+      if t.startsWith "L" then (fromHex body).map Fmt.lit
+      else if t.startsWith "D" then do
+        let x ← body.toInt?
+        if -2147483648 ≤ x ∧ x ≤ 2147483647 then some (Fmt.d x) else none
+      else if t.startsWith "U" then do
+        let x ← body.toNat?
+        if x < 4294967296 then some (Fmt.u x) else none
+      else if t.startsWith "Q" then do
+        let x ← body.toInt?
+        if -9223372036854775808 ≤ x ∧ x ≤ 9223372036854775807 then some (Fmt.d x) else none
+      else if t.startsWith "W" then do
+        let x ← body.toNat?
+        if x < 18446744073709551616 then some (Fmt.u x) else none
+      else if t.startsWith "S" then (fromHex body).map Fmt.s
+      else if t.startsWith "C" then do
+        let x ← byte? body
+        if x ≠ 0 then some (Fmt.c x) else none
+      else none
+    pure (item :: rest)
+
+/-- at most two directives (what the harness can pass through the C ellipsis) -/
+def fmtOk (f : List Fmt) : Bool :=
+  (f.filter (fun i => match i with | .lit _ => false | _ => true)).length ≤ 2
+
+inductive R where
+  | bad
+  | fault
+  | ok (d : DState) (res : String)
+
+def mutSt (d : DState) (r : Option St) : R :=
+  match r with
+  | some s => .ok { d with st := s } "-"
+  | none => .fault
+
+def mutOp (d : DState) (op : Option Op) : R :=
+  match op with
+  | some op => mutSt d (step d.st op)
+  | none => .bad
+
+/-- a query with a String operand `x` (variable or temporary in slot T0+1) -/
+def withOperand (d : DState) (x : String) (k : St → Nat → Option (St × String)) : R :=
+  match operand d.st x (T0 + 1) with
+  | none => .bad
+  | some none => .fault
+  | some (some (s, w)) =>
+    match k s w with
+    | none => .fault
+    | some (s, res) => .ok { d with st := if w < NU then s else setEmpty s w } res
+
+def b01 (b : Bool) : String := if b then "1" else "0"
+
+def exec (d : DState) (ws : List String) : R :=
+  let s := d.st
+  match ws with
+  | ["new", v] => mutOp d (do pure (.ctorEmpty (← var? v)))
+  | ["lit", v, r] => mutOp d (do
+      let r ← r.toNat?
+      if r < 2 then pure (.attach (← var? v) r 0 (regLen r)) else none)
+  | ["attach", v, r, o, l] => mutOp d (do
+      let r ← r.toNat?
+      let o ← o.toNat?
+      let l ← l.toNat?
+      if r < NR ∧ o + l ≤ regLen r then pure (.attach (← var? v) r o l) else none)
+  | ["copy", v, w] => mutOp d (do
+      let v ← var? v
+      let w ← var? w
+      if v = w then none else pure (.ctorCopy v w))
+  | ["ptr", v, h] => mutOp d (do pure (.ctorPtr (← var? v) (← fromHex h)))
+  | ["fill", v, n, c] => mutOp d (do pure (.ctorFill (← var? v) (← n.toNat?) (← byte? c)))
+  | ["cap", v, n] => mutOp d (do pure (.ctorCap (← var? v) (← n.toNat?)))
+  | ["assign", v, w] => mutOp d (do pure (.assign (← var? v) (← var? w)))
+  | ["clear", v] => mutOp d (do pure (.clear (← var? v)))
+  | ["detach", v] => mutOp d (do pure (.detach (← var? v)))
+  | ["cstr", v] => mutOp d (do pure (.cview (← var? v)))
+  | ["resize", v, n] => mutOp d (do pure (.resize (← var? v) (← n.toNat?)))
+  | ["reserve", v, n] => mutOp d (do pure (.reserve (← var? v) (← n.toNat?)))
+  | ["fillfrom", v, i, c] => mutOp d (do pure (.fillFrom (← var? v) (← i.toNat?) (← byte? c)))
+  | ["appendS", v, w] => mutOp d (do pure (.appendS (← var? v) (← var? w)))
+  | ["append", v, h] => mutOp d (do pure (.appendP (← var? v) (← fromHex h)))
+  | ["appendC", v, c] => mutOp d (do pure (.appendC (← var? v) (← byte? c)))
+  | ["prependS", v, w] => mutOp d (do pure (.prependS (← var? v) (← var? w)))
+  | ["prepend", v, h] => mutOp d (do pure (.prependP (← var? v) (← fromHex h)))
+  | ["replaceC", v, a, b] => mutOp d (do pure (.replaceC (← var? v) (← byte? a) (← byte? b)))
+  | ["lower", v] => mutOp d (do pure (.lower (← var? v)))
+  | ["upper", v] => mutOp d (do pure (.upper (← var? v)))
+  | ["substr", v, w, a, b] => mutOp d (do pure (.substr (← var? v) (← var? w) (← a.toInt?) (← b.toInt?)))
+  | ["trim", v, h] => mutOp d (do pure (.trim (← var? v) (← fromHex h)))
+  | ["replaceS", v, a, b] => mutOp d (do pure (.replaceS (← var? v) (← var? a) (← var? b)))
+  | ["replaceL", v, a, b] => mutOp d (do pure (.replaceL (← var? v) (← fromHex a) (← fromHex b)))
+  | ["tokenC", v, w, c, st] =>
+    match var? v, var? w, byte? c, st.toNat? with
+    | some v, some w, some c, some st =>
+      match tokenC s v w c st T0 with
+      | some (s, st') => .ok { d with st := s } (toString st')
+      | none => .fault
+    | _, _, _, _ => .bad
+  | ["tokenS", v, w, h, st] =>
+    match var? v, var? w, fromHex h, st.toNat? with
+    | some v, some w, some h, some st =>
+      match tokenS s v w h st T0 with
+      | some (s, st') => .ok { d with st := s } (toString st')
+      | none => .fault
+    | _, _, _, _ => .bad
+  | ["split", v, h, sk] =>
+    match var? v, fromHex h, sk.toNat? with
+    | some v, some h, some sk =>
+      match split s v h (sk != 0) with
+      | some (s, toks) => .ok { st := s, toks := toks } (" ".intercalate (toString toks.length :: toks.map bytesStr))
+      | none => .fault
+    | _, _, _ => .bad
+  | ["join", v, c] =>
+    match var? v, byte? c with
+    | some v, some c => mutSt d (join s v d.toks c)
+    | _, _ => .bad
+  | "printf" :: v :: items =>
+    match var? v, parseFmt items with
+    | some v, some f =>
+      if fmtOk f then
+        match printf s v f with
+        | some (s, n) => .ok { d with st := s } (toString n)
+        | none => .fault
+      else .bad
+    | _, _ => .bad
+  -- queries with a String operand
+  | ["compare", v, x] =>
+    match var? v with
+    | some v => withOperand d x (fun s w => (compareS s v w).map (fun (s, r) => (s, toString r)))
+    | none => .bad
+  | ["compareN", v, x, n] =>
+    match var? v, n.toNat? with
+    | some v, some n => withOperand d x (fun s w => (compareN s v w n).map (fun (s, r) => (s, toString r)))
+    | _, _ => .bad
+  | ["compareIC", v, x] =>
+    match var? v with
+    | some v => withOperand d x (fun s w => (compareIC s v w).map (fun (s, r) => (s, toString r)))
+    | none => .bad
+  | ["compareICN", v, x, n] =>
+    match var? v, n.toNat? with
+    | some v, some n => withOperand d x (fun s w => (compareICN s v w n).map (fun (s, r) => (s, toString r)))
+    | _, _ => .bad
+  | ["eq", v, x] =>
+    match var? v with
+    | some v => withOperand d x (fun s w => (equalS s v w).map (fun r => (s, b01 r)))
+    | none => .bad
+  | ["eqIC", v, x] =>
+    match var? v with
+    | some v => withOperand d x (fun s w => (equalsIC s v w).map (fun (s, r) => (s, b01 r)))
+    | none => .bad
+  | ["startsWith", v, x] =>
+    match var? v with
+    | some v => withOperand d x (fun s w => (startsWith s v w).map (fun r => (s, b01 r)))
+    | none => .bad
+  | ["endsWith", v, x] =>
+    match var? v with
+    | some v => withOperand d x (fun s w => (endsWith s v w).map (fun r => (s, b01 r)))
+    | none => .bad
+  | ["prependX", v, x] =>
+    match var? v with
+    | some v => withOperand d x (fun s w => (prependS s v w T0).map (fun s => (s, "-")))
+    | none => .bad
+  | ["appendX", v, x] =>
+    match var? v with
+    | some v => withOperand d x (fun s w => (appendS s v w).map (fun s => (s, "-")))
+    | none => .bad
+  -- queries with C string / char arguments
+  | ["findC", v, c] =>
+    match var? v, byte? c with
+    | some v, some c => match findC s v c with | some r => .ok d (optIdx r) | none => .fault
+    | _, _ => .bad
+  | ["findLastC", v, c] =>
+    match var? v, byte? c with
+    | some v, some c => match findLastC s v c with | some r => .ok d (optIdx r) | none => .fault
+    | _, _ => .bad
+  | ["findCFrom", v, c, st] =>
+    match var? v, byte? c, st.toNat? with
+    | some v, some c, some st => match findCFrom s v c st with | some (s, r) => .ok { d with st := s } (optIdx r) | none => .fault
+    | _, _, _ => .bad
+  | ["findS", v, h] =>
+    match var? v, fromHex h with
+    | some v, some h => match findS s v h with | some (s, r) => .ok { d with st := s } (optIdx r) | none => .fault
+    | _, _ => .bad
+  | ["findSFrom", v, h, st] =>
+    match var? v, fromHex h, st.toNat? with
+    | some v, some h, some st => match findSFrom s v h st with | some (s, r) => .ok { d with st := s } (optIdx r) | none => .fault
+    | _, _, _ => .bad
+  | ["findOneOf", v, h] =>
+    match var? v, fromHex h with
+    | some v, some h => match findOneOf s v h with | some (s, r) => .ok { d with st := s } (optIdx r) | none => .fault
+    | _, _ => .bad
+  | ["findOneOfFrom", v, h, st] =>
+    match var? v, fromHex h, st.toNat? with
+    | some v, some h, some st => match findOneOfFrom s v h st with | some (s, r) => .ok { d with st := s } (optIdx r) | none => .fault
+    | _, _, _ => .bad
+  | ["findLastS", v, h] =>
+    match var? v, fromHex h with
+    | some v, some h => match findLastS s v h with | some (s, r) => .ok { d with st := s } (optIdx r) | none => .fault
+    | _, _ => .bad
+  | ["findLastOf", v, h] =>
+    match var? v, fromHex h with
+    | some v, some h => match findLastOf s v h with | some (s, r) => .ok { d with st := s } (optIdx r) | none => .fault
+    | _, _ => .bad
+  | ["toBool", v] =>
+    match var? v with
+    | some v => match toBool s v with | some (s, r) => .ok { d with st := s } (b01 r) | none => .fault
+    | none => .bad
+  | ["hash", v] =>
+    match var? v with
+    | some v => match hash s v with | some (s, r) => .ok { d with st := s } (toString r) | none => .fault
+    | none => .bad
+  | _ => .bad
+
+/-- C string arguments must be NUL-free (they are passed as `const char*`) -/
+def stepLine (d : DState) (ws : List String) : DState × String :=
+  match ws with
+  | ["reset"] => (init0, "- ; " ++ obs init0.st)
+  | _ =>
+    match exec d ws with
+    | .bad => (d, "bad-op")
+    | .fault => (init0, "FAULT")
+    | .ok d res => (d, res ++ " ; " ++ obs d.st)
+
+end Nstd.Str
+
+def main : IO Unit := Nstd.Common.ioLoop Nstd.Str.init0 Nstd.Str.stepLine
